@@ -80,6 +80,8 @@ where
             // err might be a different error so match again
             return Poll::Ready(Err(self.convert_to_connection_error(err)));
         }
+        #[cfg(feature = "verif-hooks")]
+        crate::shared_state::verif::yield_point("waker.register");
         self.waker().register(cx.waker());
         Poll::Pending
     }
